@@ -48,12 +48,12 @@ Crits == {"none", "eq", "in", "eqand", "orin"}
 LamKinds == {"lscalar", "llist", "lcol", "ltab", "lmulti", "lwhere", "lcrit", "lexpr"}
 Wraps == {"none", "subq", "cte", "union", "exists"}
 Decos == {"none", "limit", "label", "distinct"}
-Opts == {"none", "selectin", "joined", "defer", "ret"}
+Opts == {"none", "selectin", "joined", "defer", "undefer", "ret"}
 \* well-formed shapes, per statement kind
 SelShapes == {s \in [k : {"sel"}, f : Froms, c : Crits, w : Wraps, d : Decos, o : {"none"}] :
                  (s.w = "union" => s.d \in {"none", "limit"}) /\ (s.w = "exists" => s.f \in {"a", "join", "outer"})}
 OrmShapes == [k : {"orm"}, f : {"a", "join", "outer"}, c : Crits, w : {"none", "exists"}, d : {"none", "limit", "distinct"},
-              o : {"none", "selectin", "joined", "defer"}]
+              o : {"none", "selectin", "joined", "defer", "undefer"}]        \* (undefer(A.y) differs from defer(A.y) in the loader STRATEGY only)
 InsShapes == [k : {"ins"}, f : {"a", "s1"}, c : {"none"}, w : {"none"}, d : {"none"}, o : {"none", "ret"}]
 UpdDelShapes == [k : {"upd", "del"}, f : {"a", "s1"}, c : Crits, w : {"none"}, d : {"none"}, o : {"none", "ret"}]
 LamShapes == [k : {"lam"}, f : {"a"}, c : LamKinds, w : {"none"}, d : {"none"}, o : {"none"}]
